@@ -37,6 +37,9 @@ type gstate struct {
 	tid    int
 	grant  chan struct{}
 	timers []*time.Timer
+	// duration the most recent NewTimer / ResetTimer of this goroutine was given (the fake timer itself ignores it)
+	lastDur time.Duration
+	hasDur  bool
 }
 
 var (
@@ -127,6 +130,9 @@ func At(label string) {
 // chaosNext derives the chaos decisions from VERIF_SEED (splitmix64 over a shared counter), so that a
 // stress command is reproducible up to the Go scheduler's own choices.
 func chaosNext() int64 {
+	if raceBuild {
+		return int64(unsyncRand() >> 1)
+	}
 	z := uint64(chaosSeed.Load()) + uint64(chaosCtr.Add(1))*0x9E3779B97F4A7C15
 	z = (z ^ (z >> 30)) * 0xBF58476D1CE4E5B9
 	z = (z ^ (z >> 27)) * 0x94D049BB133111EB
@@ -230,6 +236,7 @@ func NewTimer(d time.Duration) *time.Timer {
 	if g := lookup(false); g != nil {
 		mu.Lock()
 		g.timers = append(g.timers, t)
+		g.lastDur, g.hasDur = d, true
 		mu.Unlock()
 	}
 	return t
@@ -240,7 +247,24 @@ func ResetTimer(t *time.Timer, d time.Duration) bool {
 	if mode.Load() != LockStep {
 		return t.Reset(d)
 	}
+	if g := lookup(false); g != nil {
+		mu.Lock()
+		g.lastDur, g.hasDur = d, true
+		mu.Unlock()
+	}
 	return t.Reset(far)
+}
+
+// LastTimerDuration reports the duration goroutine tid passed to its most recent NewTimer / ResetTimer call in
+// lock-step mode (the fake timers never fire by themselves, so the value is otherwise unobservable there).
+func LastTimerDuration(tid int) (time.Duration, bool) {
+	mu.Lock()
+	defer mu.Unlock()
+	g := byTid[tid]
+	if g == nil {
+		return 0, false
+	}
+	return g.lastDur, g.hasDur
 }
 
 // Fire makes the most recent timer of goroutine tid deliver its tick. With waitBuffered it
